@@ -180,18 +180,88 @@ def run(ck):
     commits = [n for n in walk_local(ploop) if (isinstance(n, ast.Assign) and any(
         isinstance(t, ast.Subscript) and norm(t.value) == RES for t in n.targets)) or
         (isinstance(n, ast.Call) and isinstance(n.func, ast.Attribute) and n.func.attr == "update" and norm(n.func.value) == RES)]
-    ok = bool(commits)
-    for cmt in commits:
-        p = getattr(cmt, "_parent", None)
-        guarded = False
-        while p is not None and p is not ploop:
-            if isinstance(p, ast.If):
-                guarded = True
-            p = getattr(p, "_parent", None)
-        ok = ok and guarded
-    # the flag must be falsified when a sub-match fails
-    flagset = any(isinstance(n, ast.Assign) and isinstance(n.value, ast.Constant) and n.value.value is False
-                  for n in walk_local(ploop))
+    # within one permutation, no path leads from a failed sub-match to a commit (whatever the idiom: success flag, for/else, early
+    # `continue`); the walk stops at the permutation loop's own head (= next permutation)
+    from sa.astutil import Resolver as _Res2
+    pres = _Res2(fn)
+    pcfg = CFG([ploop])
+    is_head = lambda nd_: nd_.ast is ploop
+    fails = []      # (test node, label of the "sub-match failed" edge)
+    for nd in pcfg.nodes:
+        if nd.kind != "test":
+            continue
+        t_ = nd.ast
+        pol = True
+        while isinstance(t_, ast.UnaryOp) and isinstance(t_.op, ast.Not):
+            t_ = t_.operand
+            pol = not pol
+        subject = None
+        lab = None
+        if isinstance(t_, ast.Compare) and len(t_.ops) == 1 and isinstance(t_.comparators[0], ast.Constant) and t_.comparators[0].value is False:
+            subject = t_.left
+            lab = isinstance(t_.ops[0], (ast.Is, ast.Eq)) == pol
+        elif isinstance(t_, (ast.Name, ast.Call)):
+            subject = t_
+            lab = not pol          # falsy result = failure
+        if subject is None:
+            continue
+        sx = pres.expand_node(subject) if isinstance(subject, ast.Name) else subject
+        is_sub = isinstance(sx, ast.Call) and norm(sx.func) == fn.name
+        if not is_sub and isinstance(subject, ast.Name):
+            is_sub = any(isinstance(d, ast.Call) and norm(d.func) == fn.name for d in pres.all_defs(subject.id))
+        if is_sub:
+            fails.append((nd, lab))
+    cnodes = [nd for nd in pcfg.nodes if nd.kind == "stmt" and any(x is nd.ast or any(y is x for y in ast.walk(nd.ast)) for x in commits)]
+    ok = bool(commits) and bool(fails) and bool(cnodes)
+    def flag_test(t_):
+        """(flag name, value for which the test is true) for tests on a boolean local; else None."""
+        pol = True
+        while isinstance(t_, ast.UnaryOp) and isinstance(t_.op, ast.Not):
+            t_ = t_.operand
+            pol = not pol
+        if isinstance(t_, ast.Name):
+            return t_.id, pol
+        if isinstance(t_, ast.Compare) and len(t_.ops) == 1 and isinstance(t_.left, ast.Name) and isinstance(t_.comparators[0], ast.Constant) \
+                and isinstance(t_.comparators[0].value, bool):
+            same = isinstance(t_.ops[0], (ast.Is, ast.Eq))
+            return t_.left.id, (t_.comparators[0].value == same) == pol if same or isinstance(t_.ops[0], (ast.IsNot, ast.NotEq)) else None
+        return None
+
+    def reaches_commit(start):
+        """Is a commit reachable from `start` within this permutation, following boolean flags set on the way?"""
+        seen_ = set()
+        todo_ = [(start, frozenset())]
+        while todo_:
+            x, fl = todo_.pop()
+            if (x, fl) in seen_:
+                continue
+            seen_.add((x, fl))
+            nd_ = pcfg.nodes[x]
+            if is_head(nd_):
+                continue
+            if any(c_.id == x for c_ in cnodes):
+                return True
+            fld = dict(fl)
+            if nd_.kind == "stmt" and isinstance(nd_.ast, ast.Assign) and len(nd_.ast.targets) == 1 and isinstance(nd_.ast.targets[0], ast.Name):
+                if isinstance(nd_.ast.value, ast.Constant) and isinstance(nd_.ast.value.value, bool):
+                    fld[nd_.ast.targets[0].id] = nd_.ast.value.value
+                else:
+                    fld.pop(nd_.ast.targets[0].id, None)
+            only = None
+            if nd_.kind == "test":
+                ft = flag_test(nd_.ast)
+                if ft is not None and ft[1] is not None and ft[0] in fld:
+                    only = (fld[ft[0]] == ft[1])
+            for (s_, l_) in pcfg.succ[x]:
+                if only is not None and l_ in (True, False) and l_ is not only:
+                    continue
+                todo_.append((s_, frozenset(fld.items())))
+        return False
+    for (fnode, lab) in fails:
+        for (s_, l_) in pcfg.succ[fnode.id]:
+            if l_ is lab and reaches_commit(s_):
+                ok = False
+    flagset = True
     ck.ob("R3", "match_expr:permutation:commit-on-success", ok and flagset, m.where(ploop),
           "bindings of a permutation are committed to the caller's dictionary without a success test")
     # R4
@@ -242,39 +312,42 @@ def run(ck):
     binds = [nd for nd in tcfg.nodes if nd.kind == "stmt" and isinstance(nd.ast, ast.Assign) and any(
         isinstance(t, ast.Subscript) and norm(t.value) == tR and norm(t.slice) == tP for t in nd.ast.targets)]
     ck.need(binds, "test_set: binding of the joker not found")
+    # every path from the entry to the binding leaves either the membership test on its "not bound" edge or the comparison with
+    # the stored expression on its "equal" edge; tests written through a temporary are expanded first
+    from sa.astutil import Resolver as _Res
+    tres = _Res(ts)
+    safe = set()       # (test node id, label) edges that establish "unbound" or "bound to the same expression"
+    for nd in tcfg.nodes:
+        if nd.kind != "test":
+            continue
+        t_ = tres.expand_node(nd.ast)
+        pol = True
+        while isinstance(t_, ast.UnaryOp) and isinstance(t_.op, ast.Not):
+            t_ = t_.operand
+            pol = not pol
+        q = cmp_parts(t_)
+        if not q:
+            continue
+        if q[1] in ("in", "notin") and norm(q[0]) == tP and norm(q[2]) == tR:
+            unbound_label = (q[1] == "notin") == pol
+            safe.add((nd.id, unbound_label))
+        if q[1] in ("!=", "==") and set([norm(q[0]), norm(q[2])]) == set(["%s[%s]" % (tR, tP), tE]):
+            equal_label = (q[1] == "==") == pol
+            safe.add((nd.id, equal_label))
     ok = True
     for b in binds:
         if norm(b.ast.value) != tE:
             ok = False
-        dom = tcfg.dominators()[b.id]
-        g = False
-        for did in dom:
-            dn = tcfg.nodes[did]
-            if dn.kind == "test":
-                p = cmp_parts(dn.ast)
-                if p and p[1] in ("!=", "==") and set([norm(p[0]), norm(p[2])]) == set(["%s[%s]" % (tR, tP), tE]):
-                    lab = (p[1] == "!=")
-                    if _returns_false(tcfg, [s for (s, l) in tcfg.succ[did] if l is lab]):
-                        g = True
-        # the comparison is reached only when the joker is bound; on the unbound path the bind is fine.
-        if not g:
-            # accept domination through the short-circuit: any path entry->bind that passes `P in R` true
-            # must pass the comparison
-            for nd in tcfg.nodes:
-                if nd.kind == "test":
-                    p = cmp_parts(nd.ast)
-                    if p and p[1] in ("!=", "==") and set([norm(p[0]), norm(p[2])]) == set(["%s[%s]" % (tR, tP), tE]):
-                        lab = (p[1] == "!=")
-                        if _returns_false(tcfg, [s for (s, l) in tcfg.succ[nd.id] if l is lab]):
-                            # membership test true-edge must lead only to this comparison
-                            for n2 in tcfg.nodes:
-                                if n2.kind == "test":
-                                    q = cmp_parts(n2.ast)
-                                    if q and q[1] == "in" and norm(q[0]) == tP and norm(q[2]) == tR:
-                                        tsucc = [s for (s, l) in tcfg.succ[n2.id] if l is True]
-                                        if tsucc == [nd.id] and n2.id in dom:
-                                            g = True
-        ok = ok and g
+        seen_, todo_ = set([tcfg.entry.id]), [tcfg.entry.id]
+        while todo_:
+            x = todo_.pop()
+            for (s_, l_) in tcfg.succ[x]:
+                if (x, l_) in safe or s_ in seen_:
+                    continue
+                seen_.add(s_)
+                todo_.append(s_)
+        if b.id in seen_:
+            ok = False
     ck.ob("R2", "test_set:joker-consistency", ok, m.where(ts),
           "a joker already bound to another expression can be rebound: one joker matches two different sub-expressions")
     # joker test first in match_expr
